@@ -216,8 +216,36 @@ def terminator_rule(repo: Repo, rep: Report, rid: str) -> None:
         if f is not None and not f.is_abstract():
             seen[f.key] = f
     nw = 0
+    from ..folds import fold_generic_write_array, fold_leb128
+
+    gw = fold_generic_write_array(repo)
+    # slots of the scalar / character families that the codec folds interpret: function key -> discrepancies of that slot
+    from .. import codecfold as _cf
+
+    folded: dict[str, list] = {}
+    cache = repo.__dict__.setdefault("_codec_folds", {})
+    for fam in ("Int", "Packed", "Wchar", "Char"):
+        if fam not in cache:
+            cache[fam] = _cf.fold_family(repo, fam) if fam in ("Int", "Packed") else _cf.fold_text_family(repo, fam)
+        fo = cache[fam]
+        if fo is None:
+            continue
+        for slot in ("_read_0", "_write_0"):
+            k_ = fo["slots"].get(slot)
+            if k_:
+                folded.setdefault(k_, [])
+                folded[k_] += [b for b in fo["bad"] if b[0] == slot]
+    ta = repo.__dict__.setdefault("_text_array_fold", {})
+    if "v" not in ta:
+        ta["v"] = _cf.fold_text_arrays(repo)
     for f in seen.values():
         nw += 1
+        if f.qualname == "MetaType._write_0" and gw is not None:
+            # decided by the outcome: the generic writers are folded on a model element type
+            bad = [b for b in gw["bad"] if b[0] == "_write_0"]
+            rep.check(not bad, rid, f"{f.key}:terminator", "folded: the elements and then the type's default are written, the caller's list is unchanged",
+                      f"{f.qualname}: {bad[0][2] if bad else ''} ({bad[0][1] if bad else ''}; {bad[0][3] if bad else ''})", f.loc())
+            continue
         calls = [c for c in walk_body(f.node.body) if isinstance(c, ast.Call) and call_name(c) in ("_write_array", "_write")]
         ok = False
         detail = "no delegated _write_array call"
@@ -245,6 +273,11 @@ def terminator_rule(repo: Repo, rep: Report, rid: str) -> None:
             rep.note(f"{cls} no longer overrides _write (terminator handled by the generic _write_0)")
             continue
         nw += 1
+        if ta["v"] is not None:
+            bad = [b for b in ta["v"]["bad"] if str(b[0]).split(".")[0] == cls and "null" in str(b[2])]
+            rep.check(not bad, rid, f"{f.key}:terminator", "folded: a null-terminated character array is written as its encoding plus the terminator",
+                      (f"{f.qualname} ({bad[0][1]}, {bad[0][2]} array) given {bad[0][3]!r}: {bad[0][4]}, expected {bad[0][5]}") if bad else "", f.loc())
+            continue
         g = CFG(f.node)
         ifs = [n for n in g.nodes if n.kind == "if" and norm(n.ast.test) == f"{f.self_name}.null_terminated"]
         ok = False
@@ -264,7 +297,20 @@ def terminator_rule(repo: Repo, rep: Report, rid: str) -> None:
         if f is not None and not f.is_abstract():
             readers[f.key] = f
     nr = 0
+    lf = fold_leb128(repo)
     for f in readers.values():
+        if f.qualname == "LEB128._read_0" and lf is not None and lf.get("read0_bad") is not None:
+            nr += 1
+            bad = lf["read0_bad"]
+            rep.check(not bad, rid, f"{f.key}:loop", "folded: stops at and consumes the first zero value, raises without a terminator",
+                      (f"{f.qualname} (signed={bad[0][0]}) on {bad[0][1]} ({bad[0][2]}): {bad[0][3]}, stream left at {bad[0][4]}; expected {bad[0][5]} at {bad[0][6]}") if bad else "", f.loc())
+            continue
+        if f.key in folded:
+            nr += 1
+            bad = folded[f.key]
+            rep.check(not bad, rid, f"{f.key}:loop", "folded (codec fold): stops at and consumes the terminator, which is not returned",
+                      (f"{f.qualname}: case '{bad[0][2]}' ({bad[0][1]}): got {bad[0][3]!r}, reference {bad[0][4]!r}") if bad else "", f.loc())
+            continue
         g = CFG(f.node)
         loops = [n for n in g.nodes if n.kind == "while"]
         if not loops:
@@ -502,3 +548,7 @@ def run(repo: Repo, rep: Report, tier: str) -> None:
     from .c07 import generic_write_array_rule
 
     generic_write_array_rule(repo, rep, "C02.R23")
+    from .c11 import size_rule
+
+    # a union is dumped as exactly its size: the padding behind the written member is measured on the stream, not taken from a member's return value
+    size_rule(repo, rep, "C02.R24")
